@@ -5,8 +5,9 @@ from ..rules import hashorder, isolation
 
 def run(ctx, rep):
     hashorder.rule_hash_order(ctx, rep, "C15-R1")
-    hashorder.rule_frame_positions(ctx, rep, "C15-R1b")
-    hashorder.rule_parallel_tables(ctx, rep, "C15-R1c")
+    hashorder.rule_frame_positions(ctx, rep, "C15-R1b", only_if_hash_ordered=True)
+    hashorder.rule_parallel_tables(ctx, rep, "C15-R1c", only_if_hash_ordered=True)
+    hashorder.rule_no_slot_numbers_in_messages(ctx, rep, "C15-R1d")
     isolation.rule_no_identity_in_messages(ctx, rep, "C15-R2")
     isolation.rule_clock_rng_allowlist(ctx, rep, "C15-R3")
     isolation.rule_no_shared_state(ctx, rep, "C15-R4")
